@@ -1,7 +1,7 @@
 //! The history explorer (DESIGN §3.5): breadth-first explicit-state search over explorer events on the REAL `Pie`,
 //! states identified by the canonical store dump + cells + scope bookkeeping, re-derived by re-execution.
 
-use std::collections::{BTreeMap, HashSet, VecDeque};
+use std::collections::{BTreeMap, HashMap, HashSet, VecDeque};
 use std::hash::{Hash, Hasher};
 use std::sync::atomic::{AtomicUsize, Ordering};
 use std::sync::Mutex;
@@ -552,6 +552,7 @@ pub fn run_programs(rep: &mut Report, cfg: &HistCfg, programs: Vec<(Prog, Class)
   let next = AtomicUsize::new(0);
   let total = Mutex::new(Stats::default());
   let violations: Mutex<Vec<(usize, Violation)>> = Mutex::new(Vec::new());
+  let known: Mutex<HashMap<String, (usize, Violation, usize)>> = Mutex::new(HashMap::new());
   let known_keys: Vec<String> = rep_known_keys(rep);
   install_panic_hook();
   std::thread::scope(|scope| {
@@ -565,11 +566,23 @@ pub fn run_programs(rep: &mut Report, cfg: &HistCfg, programs: Vec<(Prog, Class)
           if Instant::now() > deadline { stats.wall_capped = true; break; }
           let (prog, class) = &programs[i];
           let mut local: Vec<Violation> = Vec::new();
+          // known findings are met millions of times in the deeper tiers: count them, keep one sample per key
+          let mut local_known: HashMap<String, (Violation, usize)> = HashMap::new();
           let is_known = |k: &str| !k.is_empty() && known_keys.iter().any(|x| x == k);
-          explore_program(prog, *class, cfg, &mut stats, deadline, &mut |v| local.push(v), &is_known);
+          explore_program(prog, *class, cfg, &mut stats, deadline, &mut |v| {
+            if is_known(&v.key) {
+              match local_known.get_mut(&v.key) { Some(e) => e.1 += 1, None => { local_known.insert(v.key.clone(), (v, 1)); } }
+            } else if local.len() < 64 { local.push(v); }
+          }, &is_known);
           if !local.is_empty() {
             let mut g = violations.lock().unwrap();
             for v in local { g.push((i, v)); }
+          }
+          if !local_known.is_empty() {
+            let mut g = known.lock().unwrap();
+            for (k, (v, n)) in local_known {
+              match g.get_mut(&k) { Some(e) => { let e: &mut (usize, Violation, usize) = e; e.2 += n; if i < e.0 { e.0 = i; e.1 = v; } }, None => { g.insert(k, (i, v, n)); } }
+            }
           }
         }
         total.lock().unwrap().merge(&stats);
@@ -584,6 +597,9 @@ pub fn run_programs(rep: &mut Report, cfg: &HistCfg, programs: Vec<(Prog, Class)
     la.cmp(&lb)
   }));
   for (_, v) in vs { rep.violation(v); }
+  let mut ks: Vec<(String, (usize, Violation, usize))> = known.into_inner().unwrap().into_iter().collect();
+  ks.sort_by(|a, b| a.0.cmp(&b.0));
+  for (_, (_, v, n)) in ks { rep.known_hits_n(v, n); }
   total.into_inner().unwrap()
 }
 
